@@ -451,6 +451,12 @@ func runC12(cx *Ctx, r *Report) {
 	// G10: the oracle import replays values through the trimming writer, so the run-time
 	// trims must keep the store within the feed's window (rule shared with C17)
 	cx.oracleTrimRule(r, collectEvents(cx, r, "oracle", "msg", "callback"), "G10-window-kept-at-run-time")
+	if n := cx.importChecksSelfKeyed(r, mods, "G12-import-check-self-keyed"); n < 2 {
+		r.toolErr("only %d existence checks keyed by a field of the restored record found on import paths (token symbol / min unit confirmed)", n)
+	}
+	if n := cx.importCountersRule(r, mods, "G11-import-counter-counts-all"); n < 1 {
+		r.toolErr("no counting import counter found (mt's token sequence confirmed)")
+	}
 	if n := cx.importRebuildRule(r, mods, "G8-derived-coexecuted"); n < 4 {
 		r.toolErr("only %d record/derived pairs found in import loops (≥4 confirmed)", n)
 	}
@@ -1713,4 +1719,187 @@ func (cx *Ctx) presenceCountComparison(m string) string {
 		}
 	}
 	return ""
+}
+
+// importCountersRule (C12 G11, C15): an id counter that InitGenesis rebuilds by counting
+// (n := 1; for … { …; n++ }; SetSequence(n)) is advanced on EVERY iteration of the loop
+// that restores the records. An increment that a `continue` can skip (a class without
+// tokens, a record of some kind) leaves the counter at or below an id already in use:
+// the next generated id collides with an existing record and overwrites it.
+func (cx *Ctx) importCountersRule(r *Report, mods []string, rule string) int {
+	n := 0
+	for _, m := range mods {
+		var entries []Entry
+		for _, e := range cx.entriesOfModule(m, "genesis") {
+			if e.Name == "InitGenesis" {
+				entries = append(entries, e)
+			}
+		}
+		seen := map[ssa.Instruction]bool{}
+		cx.forEachEvent(entries, nil, func(e *Entry, w *Walker, ev *Event) {
+			if ev.Kind != "store.set" {
+				return
+			}
+			for f := ev.Fr; f != nil; f = f.Parent {
+				site := liftTo(ev, f)
+				ci, ok := site.(ssa.CallInstruction)
+				if !ok || seen[site] {
+					continue
+				}
+				for _, a := range ci.Common().Args {
+					bt, isB := a.Type().Underlying().(*types.Basic)
+					if !isB || bt.Info()&types.IsInteger == 0 {
+						continue
+					}
+					incs := constIncrementsOf(a)
+					if len(incs) == 0 {
+						continue
+					}
+					seen[site] = true
+					for _, inc := range incs {
+						if !inLoop(inc.Block()) {
+							continue
+						}
+						n++
+						key := m + "|" + strings.Join(ev.Prefix, ",") + "|" + fmt.Sprint(n)
+						r.check(perIterationMust([]ssa.Instruction{inc}), rule, key, cx.P.Pos(inc.Pos()), "the counter written under "+strings.Join(ev.Prefix, ",")+" is advanced on every iteration of the import loop", "the counter that InitGenesis writes under "+strings.Join(ev.Prefix, ",")+" is advanced at "+cx.P.Pos(inc.Pos())+" only on some iterations of its loop (a `continue` or branch skips the increment): records restored on the skipped iterations are not counted, the restored sequence is too low and the next generated id collides with an existing record")
+					}
+				}
+			}
+		})
+	}
+	return n
+}
+
+// constIncrementsOf: v is a loop-carried counter (φ over x+const); the add instructions.
+func constIncrementsOf(v ssa.Value) []*ssa.BinOp {
+	var out []*ssa.BinOp
+	seen := map[ssa.Value]bool{}
+	var walk func(x ssa.Value, d int)
+	walk = func(x ssa.Value, d int) {
+		if d > 12 || seen[x] {
+			return
+		}
+		seen[x] = true
+		switch y := x.(type) {
+		case *ssa.Phi:
+			for _, e := range y.Edges {
+				walk(e, d+1)
+			}
+		case *ssa.BinOp:
+			if y.Op == token.ADD {
+				if _, isC := y.Y.(*ssa.Const); isC {
+					out = append(out, y)
+					walk(y.X, d+1)
+				} else if _, isC := y.X.(*ssa.Const); isC {
+					out = append(out, y)
+					walk(y.Y, d+1)
+				}
+			}
+		case *ssa.Convert:
+			walk(y.X, d+1)
+		case *ssa.UnOp:
+			if a, ok := y.X.(*ssa.Alloc); ok && a.Referrers() != nil {
+				for _, rf := range *a.Referrers() {
+					if st, ok := rf.(*ssa.Store); ok && st.Addr == a {
+						walk(st.Val, d+1)
+					}
+				}
+			}
+		}
+	}
+	walk(v, 0)
+	// keep only increments that are part of a cycle through a φ (a running counter)
+	var loopy []*ssa.BinOp
+	for _, b := range out {
+		if inLoop(b.Block()) {
+			loopy = append(loopy, b)
+		}
+	}
+	return loopy
+}
+
+// importChecksSelfKeyed (G12): while InitGenesis restores a record X it may refuse it
+// because "something is already there" (Has / Get under some prefix P). When restoring X
+// also WRITES under P, the check must look at the very key X is going to occupy
+// (P keyed by the same field of X). A check keyed by another field of X (is X's symbol
+// already in use as somebody's min unit?) makes acceptance depend on which record was
+// restored first: the exporter lists records in store order, so a state that was reached
+// in one order at run time is refused when replayed in another.
+func (cx *Ctx) importChecksSelfKeyed(r *Report, mods []string, rule string) int {
+	n := 0
+	fieldBases := func(t *Term) map[string]string { // base term -> field
+		out := map[string]string{}
+		var walk func(x *Term)
+		walk = func(x *Term) {
+			if x == nil {
+				return
+			}
+			if x.Op == "field" && len(x.Args) == 1 {
+				// the outermost selection only: (data.Tokens[i]).Symbol names field Symbol of the
+				// record data.Tokens[i], not field Tokens of the genesis state
+				out[x.Args[0].LooseString()] = x.Name
+				return
+			}
+			for _, a := range x.Args {
+				walk(a)
+			}
+		}
+		walk(t)
+		return out
+	}
+	for _, m := range mods {
+		var entries []Entry
+		for _, e := range cx.entriesOfModule(m, "genesis") {
+			if e.Name == "InitGenesis" {
+				entries = append(entries, e)
+			}
+		}
+		type acc struct {
+			ev   *Event
+			w    *Walker
+			base map[string]string
+		}
+		var reads, writes []acc
+		cx.forEachEvent(entries, nil, func(e *Entry, w *Walker, ev *Event) {
+			if len(ev.Prefix) != 1 || len(ev.Args) == 0 {
+				return
+			}
+			switch ev.Kind {
+			case "store.has", "store.get":
+				reads = append(reads, acc{ev, w, fieldBases(ev.Args[0])})
+			case "store.set":
+				writes = append(writes, acc{ev, w, fieldBases(ev.Args[0])})
+			}
+		})
+		seen := map[string]bool{}
+		for _, rd := range reads {
+			for base, rf := range rd.base {
+				var same, other []string
+				for _, wr := range writes {
+					if wr.ev.Prefix[0] != rd.ev.Prefix[0] {
+						continue
+					}
+					if wf, ok := wr.base[base]; ok {
+						if wf == rf {
+							same = append(same, wf)
+						} else {
+							other = append(other, wf)
+						}
+					}
+				}
+				if len(same) == 0 && len(other) == 0 {
+					continue // restoring this record does not write under the prefix: a reference check
+				}
+				key := m + "|" + rd.ev.Prefix[0] + "|" + rf
+				if seen[key] {
+					continue
+				}
+				seen[key] = true
+				n++
+				r.check(len(same) > 0, rule, key, rd.ev.Pos(cx), "the existence check under "+rd.ev.Prefix[0]+" looks at the key (field "+rf+") the restored record itself occupies", "while restoring a record InitGenesis checks "+rd.ev.Prefix[0]+" under the record's field "+rf+", but the record itself is stored there under its field "+strings.Join(uniq(other), "/")+": whether an exported record is accepted depends on which other record was restored before it, and the store-ordered export of a reachable state can be refused (chain "+rd.ev.Fr.String()+")")
+			}
+		}
+	}
+	return n
 }
